@@ -1658,6 +1658,27 @@ pub(crate) fn h_strict_vs_nonstrict() {
     }
 }
 
+/// C06 over the generated deviation family: every document with one recoverable problem (element too often, element or
+/// enum value newer than the file version, required element missing, block closed with another tag) is rejected by
+/// strict loading and accepted - with a diagnostic - by non-strict loading. The same call (error_or_log) sits in every
+/// generated element parser: one document per block of the grammar reaches each of them.
+fn strict_vs_nonstrict_generated(idx: &[u32]) {
+    vrt_cover(!idx.is_empty(), "c06 generated documents are in place");
+    if idx.is_empty() { return; }
+    let k = idx[vrt_choice(idx.len() as u32) as usize];
+    let (text, _kind, _expect, _hard) = crate::verif_dev::dev_doc(k);
+    let strict = load_from_string(text, None, true);
+    let relaxed = load_from_string(text, None, false);
+    vrt_check(strict.is_err(), "C06 strict loading rejects a recoverable problem in every element of the grammar");
+    match &relaxed {
+        Ok((_, log)) => vrt_check(log.iter().any(|e| !is_deprecation(e)), "C06 non-strict loading reports the recoverable problem it recovered from"),
+        Err(_) => vrt_check(false, "C06 non-strict loading recovers from a recoverable problem in every element of the grammar"),
+    }
+    vrt_observe_u64(k as u64);
+}
+pub(crate) fn h_strict_vs_nonstrict_end_tags() { strict_vs_nonstrict_generated(crate::verif_dev::DEV_END_TAG); }
+pub(crate) fn h_strict_vs_nonstrict_recoverable() { strict_vs_nonstrict_generated(crate::verif_dev::DEV_RECOVERABLE); }
+
 // ------------------------------------------------------------------ C14: sort() on a module that populates every list
 
 const ALL_KINDS_T: &str = "ASAP2_VERSION 1 71 /begin PROJECT p \"\" /begin MODULE m \"\"
